@@ -36,6 +36,55 @@ READ_EXEMPT = {
 }
 
 
+def subscript_guard(fi, n, var, need, g=None):
+    """why the constant-index subscript `n` of `var` cannot raise IndexError (needs len(var) > need), or None:
+    an enclosing handler, an earlier operand of the same and/or that forces the length, a strptime on var[1:] earlier in
+    the same try (empty text already raised ValueError), or a length test on every CFG path to the subscript"""
+    from ..cfg import ENTRY, len_implied
+    guarded = None
+    p = n
+    while p is not None and p is not fi.node and guarded is None:
+        par = getattr(p, '_parent', None)
+        if isinstance(par, ast.Try) and any(p is b for b in par.body):
+            for h in par.handlers:
+                if h.type is None or any(x in norm(h.type) for x in ('IndexError', 'LookupError', 'Exception')):
+                    guarded = 'handler for IndexError'
+            idx = [i for i, b in enumerate(par.body) if b is p][0]
+            before = list(par.body[:idx]) + [p]
+            for b in before:
+                for x in ast.walk(b):
+                    if x is n:
+                        break
+                    if isinstance(x, ast.Call) and norm(x.func).endswith('strptime') and len(x.args) == 2 and \
+                            norm(x.args[0]) in ('%s[1:]' % var,) and isinstance(x.args[1], ast.Constant) and \
+                            x.args[1].value and need == 0 and getattr(x, 'lineno', 0) < n.lineno and \
+                            any(h.type is not None and 'ValueError' in norm(h.type) for h in par.handlers):
+                        guarded = 'strptime(%s[1:], %r) runs first and raises ValueError for an empty text' % (var, x.args[1].value)
+        if isinstance(par, ast.BoolOp) and isinstance(par.op, ast.And) and guarded is None:
+            idx = [i for i, v_ in enumerate(par.values) if v_ is p]
+            for v_ in (par.values[:idx[0]] if idx else []):
+                if len_implied(v_, 'true', var, need):
+                    guarded = 'earlier operand `%s`' % norm(v_)[:40]
+        if isinstance(par, ast.BoolOp) and isinstance(par.op, ast.Or) and guarded is None:
+            idx = [i for i, v_ in enumerate(par.values) if v_ is p]
+            for v_ in (par.values[:idx[0]] if idx else []):
+                if len_implied(v_, 'false', var, need):
+                    guarded = 'earlier operand `%s`' % norm(v_)[:40]
+        p = par
+    if guarded is None:
+        g = g or cfg_of(fi)
+        nid = g.node_for(n)
+
+        def labels_ok(src, dst, lab, g=g, var=var, need=need):
+            nd = g.nodes[src]
+            return not (nd.kind == 'test' and len_implied(nd.ast, lab, var, need))
+        reach = g.reach(ENTRY, labels_ok=labels_ok)
+        rebind = any(isinstance(x, ast.Assign) and any(norm(t) == var for t in x.targets) for x in own_nodes(fi.node))
+        if nid is not None and nid not in reach and not (rebind and var in fi.params):
+            guarded = 'length test on every path'
+    return guarded
+
+
 def run(chk):
     c = ctxmod.get()
     ix, cg, te, esc = c.index, c.cg, c.te, c.esc
@@ -106,32 +155,8 @@ def run(chk):
                     and n.slice.value >= 1:
                 nsub += 1
                 k = n.slice.value
-                guarded = False
-                p = n
-                child = n
-                while p is not None and p is not fi.node:
-                    par = getattr(p, '_parent', None)
-                    if isinstance(par, ast.Try) and any(p is b for b in par.body):
-                        for h in par.handlers:
-                            if h.type is None or any(x in norm(h.type) for x in ('IndexError', 'LookupError', 'Exception')):
-                                guarded = True
-                    p = par
                 bctx = branch_context(n)
-                if 'len(%s)' % n.value.id in bctx:
-                    guarded = True
-                # short-circuit guard: `len(xs) > k and xs[k] ...`
-                q = n
-                while q is not None and q is not fi.node and not guarded:
-                    par = getattr(q, '_parent', None)
-                    if isinstance(par, ast.BoolOp) and isinstance(par.op, ast.And):
-                        idx = [i for i, v_ in enumerate(par.values) if v_ is q]
-                        for v_ in par.values[:idx[0]] if idx else []:
-                            if isinstance(v_, ast.Compare) and norm(v_.left) == 'len(%s)' % n.value.id and len(v_.ops) == 1 \
-                                    and isinstance(v_.comparators[0], ast.Constant):
-                                cst = v_.comparators[0].value
-                                if (isinstance(v_.ops[0], ast.Gt) and cst >= k) or (isinstance(v_.ops[0], ast.GtE) and cst >= k + 1):
-                                    guarded = True
-                    q = par
+                guarded = subscript_guard(fi, n, n.value.id, k) is not None
                 exempt = False
                 if k == 1 and fq == 'parser._split_msh':
                     # fields = msh.split(field_sep) after ^MSH(?P<field_sep>\S) matched: the separator occurs at least once
@@ -184,48 +209,7 @@ def run(chk):
             nx += 1
             need = k if k >= 0 else -k - 1
             var = n.value.id
-            guarded = None
-            p = n
-            while p is not None and p is not fi.node and guarded is None:
-                par = getattr(p, '_parent', None)
-                if isinstance(par, ast.Try) and any(p is b for b in par.body):
-                    for h in par.handlers:
-                        if h.type is None or any(x in norm(h.type) for x in ('IndexError', 'LookupError', 'Exception')):
-                            guarded = 'handler for IndexError'
-                    # strptime(var[1:], <format>) earlier in the same try body: an empty text already raised ValueError
-                    idx = [i for i, b in enumerate(par.body) if b is p][0]
-                    before = list(par.body[:idx]) + [p]
-                    for b in before:
-                        for x in ast.walk(b):
-                            if x is n:
-                                break
-                            if isinstance(x, ast.Call) and norm(x.func).endswith('strptime') and len(x.args) == 2 and \
-                                    norm(x.args[0]) in ('%s[1:]' % var,) and isinstance(x.args[1], ast.Constant) and \
-                                    x.args[1].value and need == 0 and getattr(x, 'lineno', 0) < n.lineno and \
-                                    any(h.type is not None and 'ValueError' in norm(h.type) for h in par.handlers):
-                                guarded = 'strptime(%s[1:], %r) runs first and raises ValueError for an empty text' % (var, x.args[1].value)
-                if isinstance(par, ast.BoolOp) and isinstance(par.op, ast.And) and guarded is None:
-                    idx = [i for i, v_ in enumerate(par.values) if v_ is p]
-                    for v_ in (par.values[:idx[0]] if idx else []):
-                        if len_implied(v_, 'true', var, need):
-                            guarded = 'earlier operand `%s`' % norm(v_)[:40]
-                if isinstance(par, ast.BoolOp) and isinstance(par.op, ast.Or) and guarded is None:
-                    idx = [i for i, v_ in enumerate(par.values) if v_ is p]
-                    for v_ in (par.values[:idx[0]] if idx else []):
-                        if len_implied(v_, 'false', var, need):
-                            guarded = 'earlier operand `%s`' % norm(v_)[:40]
-                p = par
-            if guarded is None:
-                g = g or cfg_of(fi)
-                nid = g.node_for(n)
-
-                def labels_ok(src, dst, lab, g=g, var=var, need=need):
-                    nd = g.nodes[src]
-                    return not (nd.kind == 'test' and len_implied(nd.ast, lab, var, need))
-                reach = g.reach(ENTRY, labels_ok=labels_ok)
-                rebind = any(isinstance(x, ast.Assign) and any(norm(t) == var for t in x.targets) for x in own_nodes(fi.node))
-                if nid is not None and nid not in reach and not (rebind and var in fi.params):
-                    guarded = 'length test on every path'
+            guarded = subscript_guard(fi, n, var, need)
             construct = '%s: %s' % (fi.qualname, norm(n))
             if guarded is not None:
                 chk.ok('C15-X', construct, 'protected by: ' + guarded, '%s:%d' % (fi.module.relpath, n.lineno),
